@@ -644,8 +644,10 @@ def check_c17(run: Run, prog: Program) -> None:
         "(E19.simplex) Simplex.volume is |det| / (n-1)! when there are as many vertices as homogeneous coordinates, and otherwise the Cayley-Menger expression whose radicand "
         "is the squared length (2 vertices) or the squared area of the triangle (3 vertices in 3-space). (E19.eq) PolytopeTensor.__eq__ against every permutation of the vertices of a symbolic "
         "triangle and quadrilateral, each vertex of the other operand with a representative of its own: True exactly for the rotations of the cycle and of its reversal. "
-        "NOT decided: the projection of polygons embedded in 3-space onto their plane, RegularPolygon, Cuboid; == of polyhedra (facets in any order); constructive "
-        "results (midpoint, circumcenter)."
+        "(E19.mid) Segment.midpoint in the plane, through the line at infinity and harmonic_set with a free auxiliary point, is b_w a + a_w b up to a scalar "
+        "for arbitrary representatives of the end points. "
+        "NOT decided: the projection of polygons embedded in 3-space onto their plane, RegularPolygon, Cuboid; == of polyhedra (facets in any order); "
+        "Triangle.circumcenter; midpoints in 3-space."
     )
     poly = prog.cls("PolytopeTensor")
 
@@ -668,6 +670,9 @@ def check_c17(run: Run, prog: Program) -> None:
     n5 = quadforms.rule_polytope_eq(run, prog)
     run.floor("polygon equality cases read (found, decided or not)", n5, 2)
     run.stats["polygon_equality_cases"] = n5
+    # Segment.midpoint: the harmonic conjugate of the point at infinity of the supporting line
+    n6 = quadforms.rule_metric_constructions(run, prog, part="midpoint")
+    run.floor("midpoint constructions read (found, decided or not)", n6, 1)
 
 
 # ================================================================================================ C01
